@@ -938,7 +938,7 @@ All but the first occurrence will be discarded/removed ...""".format(
             ls.append((dmdict["bf"], decay_chain, dmdict["model"], model_params))
 
         # Sort decays by decreasing BF
-        ls = sorted(ls, key=lambda x: -x[0])
+        ls = sorted(ls, key=lambda x: x[0] if ascending else -x[0])
 
         norm: float = 1.0
         if normalize:
